@@ -222,7 +222,7 @@ fn mbvi_all(name: &str) -> (r: bool)
 #[verifier::external_body]
 fn mbvi_take1_all(name: &str) -> (r: bool) { name.chars().take(1).all(mbvi_first) }
 """)
-    u.chunks.append((text, dict(meta, kind="code")))
+    u.spec(text, "ident::derive-mbvi-helpers(R-all)", props=P)
     u.chunks.append(("fn must_be_valid_iden(name: &str) -> (r: bool)\n", dict(meta, kind="header")))
     u.chunks.append((indent("ensures\n    // a name that takes the fast path contains no quote character of any backend\n    r ==> quote_free(name@),", 4) + "\n", dict(meta, kind="contract")))
     u.chunks.append(("{\n    mbvi_take1_all(name) && mbvi_all(name)\n}\n\n", dict(meta)))
@@ -245,7 +245,7 @@ fn mbvi_take1_all(name: &str) -> (r: bool) { name.chars().take(1).all(mbvi_first
     ctx.app("R-quote", "quote!{ fn prepare(..) { .. } } (x%d, identical)" % len(gens), "the function the macro generates")
     header, fbody = g[:g.index("{")], g[g.index("{"):]
     meta2 = {"kind": "code", "key": "derive::generated-prepare", "props": P, "src": DERIVE, "src_line": src[:src.index(gens[0])].count("\n") + 1, "gid": 200001, "fname": "prepare", "canary_ok": True}
-    u.chunks.append(("pub struct DerivedIden { pub n: String }\nimpl DerivedIden {\n    pub open spec fn name(&self) -> Seq<char> { self.n@ }\n    // `unquoted` of a derived implementor writes the name the macro computed (write!(s, #name))\n    #[verifier::external_body]\n    fn unquoted<W: VWrite>(&self, s: &mut W) ensures final(s).text() == old(s).text() + self.name() { unimplemented!() }\n", dict(meta2, kind="code")))
+    u.spec("pub struct DerivedIden { pub n: String }\nimpl DerivedIden {\n    pub open spec fn name(&self) -> Seq<char> { self.n@ }\n    // `unquoted` of a derived implementor writes the name the macro computed (write!(s, #name))\n    #[verifier::external_body]\n    fn unquoted<W: VWrite>(&self, s: &mut W) ensures final(s).text() == old(s).text() + self.name() { unimplemented!() }\n", "ident::DerivedIden", props=P)
     u.chunks.append(("    " + header.strip() + "\n", dict(meta2, kind="header")))
     spec = ("requires\n    // the macro emits this override only for names accepted by must_be_valid_iden (guard checked syntactically above)\n    quote_free(self.name()), is_backend_quote(q),\n"
             "ensures " + APP % {"w": "s"} + "\n    // exactly the token the general Iden::prepare writes, hence ONE identifier token decoding to the name\n    " + NEW % {"w": "s"} + " == tokq(self.name(), q),\n    is_ident_tok(" + NEW % {"w": "s"} + ", self.name(), q.0 as char, q.1 as char),")
@@ -259,10 +259,12 @@ fn mbvi_take1_all(name: &str) -> (r: bool) { name.chars().take(1).all(mbvi_first
 }"""
     close = fbody.rstrip().rfind("}")
     u.chunks.append(("    {\n        let ghost t0 = s.text();\n" + fbody[1:close].rstrip() + "\n", dict(meta2)))
-    u.chunks.append((indent(proof, 8) + "\n    }\n}\n\n", dict(meta2, kind="proof:derive")))
+    u.chunks.append((indent(proof, 8) + "\n", dict(meta2, kind="proof:derive")))
+    u.chunks.append(("    }\n\n", dict(meta2)))
     u.functions.append({"item": "derive::generated-prepare", "file": DERIVE, "line": meta2["src_line"], "vpath": "DerivedIden::prepare", "sha256": hashlib.sha256(gens[0].encode()).hexdigest(),
                         "rules": ctx.apps, "kind": "fn", "has_contract": True, "props": P, "no_canary": False})
     u.expected.append("prepare")
+    u.emit("}\n")
 
 PREPARE_PROOF = '''proof {
     lemma_is_ident_tok(self.name(), q.0 as char, q.1 as char);
